@@ -381,6 +381,19 @@ theorem reset_sites_as_modelled :
     ((NV.Gen.C16.fileScopeState.filter (fun x => x.2.2 == "protocol")).map (fun x => x.2.1)) =
       ["save_max_depth", "save_svalue_depth", "save_svalue_sizes"] := by decide
 
+/-- **The capacity loops of the size table end and make room** (`while (save_max_depth <= depth) save_max_depth <<= 1`
+for a fresh table, `while ((save_max_depth <<= 1) <= depth)` for an allocated one — the second doubles BEFORE it tests),
+for every index, from every state that satisfies `TabInv` (an allocated table has a capacity > 0), which the release block
+(`release_inv`), both loops and an `error()` in between all keep.  `Witness.zero_capacity_with_a_table_never_ends`: from
+(allocated, capacity 0) the second loop does not end. -/
+theorem size_table_capacity_ok (t : Tab) (depth : Nat) (hi : TabInv t) :
+    ∃ t', ensure t depth (depth + 1) = some t' ∧ t'.alloc = true ∧ depth < t'.cap ∧ TabInv t' :=
+  NV.C16.ensure_ok t depth hi
+
+/-- the statements of that protocol read as modelled (REGENERATED): allocation and growth in both closing branches of
+restore_internal_size, the entry written after them, pointer and capacity reset TOGETHER in both entry points -/
+theorem table_sites_as_modelled : NV.Gen.C16.tableSitesAsModelled = true ∧ 0 < NV.Gen.C16.sizeTableInitial := by decide
+
 /-! ### what the restore functions dispatch on -/
 
 /-- the model's dispatch of restore_array / restore_class (`rdElems`) accepts exactly these first characters ... -/
